@@ -69,7 +69,9 @@ def serial_quadrature(F, r, q, z, v, kind):
     acc = K(0)
     if v is None:
         for idx in itertools.product(*[range(n) for n in F.shape]):
-            acc = acc + K(wr[idx[0]] * r[idx[0]]) * (F[idx] * F[idx])
+            x = F[idx]
+            sq = (x.re * x.re + x.im * x.im) if isinstance(x, symx.SComplex) else x * x
+            acc = acc + K(wr[idx[0]] * r[idx[0]]) * sq
         return acc * K(dq * dz)
     wv = trap_weights(v)
     for idx in itertools.product(*[range(n) for n in F.shape]):
@@ -120,7 +122,11 @@ def work(item):
 
     def sums_body(ctx):
         F = dist.symbolic_field('f', shape)
-        P = dist.symbolic_field('p', shape[:3])
+        # the potential is complex in the driver: real and imaginary parts are independent symbols
+        Pre, Pim = dist.symbolic_field('pre', shape[:3]), dist.symbolic_field('pim', shape[:3])
+        P = np.empty(shape[:3], dtype=object)
+        for idx in itertools.product(*[range(n) for n in shape[:3]]):
+            P[idx] = symx.SComplex(Pre[idx], Pim[idx])
         st.update(F=F, P=P)
 
         def rankfn(comm):
@@ -330,13 +336,13 @@ def float_replay(allm, item, st):
         eta = [r, q, z, v]
         rng = np.random.RandomState(11)
         Fd = rng.rand(*shape) * 2 - 1
-        Pd = rng.rand(*shape[:3]) * 2 - 1
+        Pd = (rng.rand(*shape[:3]) * 2 - 1) + 1j * (rng.rand(*shape[:3]) * 2 - 1)
         wr = np.array([float(x) for x in trap_weights(list(map(Fr, r)))]) * r
         wv = np.array([float(x) for x in trap_weights(list(map(Fr, v)))])
         dqdz = (q[2] - q[1]) * (z[2] - z[1])
         ref = dict(l2=np.einsum('rtzv,r,v->', Fd * Fd, wr, wv) * dqdz, l1=np.einsum('rtzv,r,v->', np.abs(Fd), wr, wv) * dqdz,
                    n=np.einsum('rtzv,r,v->', Fd, wr, wv) * dqdz, ke=0.5 * np.einsum('rtzv,r,v->', Fd, wr, wv * v * v) * dqdz,
-                   l2phi=np.einsum('rtz,r->', Pd * Pd, wr) * dqdz)
+                   l2phi=np.einsum('rtz,r->', (Pd * Pd.conj()).real, wr) * dqdz)
         nranks = int(np.prod(nprocs))
         fd, fixv = st.get('fd', -1), st.get('fixv')
 
@@ -358,7 +364,7 @@ def float_replay(allm, item, st):
                 with warnings.catch_warnings():
                     warnings.simplefilter('ignore')
                     sw2 = m['layout'].LayoutSwapper(comm, [dict(d) for d in LAY3], [list(nprocs), nprocs[0], nprocs[1]], eta[:3], 'v_parallel_2d')
-                ph = m['grid'].Grid(eta[:3], [None] * 3, sw2, 'v_parallel_2d', comm=comm)
+                ph = m['grid'].Grid(eta[:3], [None] * 3, sw2, 'v_parallel_2d', comm=comm, dtype=np.complex128)
                 dist.fill_grid(ph, Pd)
                 col = m['dc'].DiagnosticCollector(comm, 3, 0.5, g, ph)
                 kk = st.get('k', 1)
@@ -373,7 +379,7 @@ def float_replay(allm, item, st):
                 else:
                     out['mn'], out['mx'] = g.getMin(0, fd, fixv), g.getMax(0, fd, fixv)
             if layout not in LAY4:
-                ph = m['grid'].Grid(eta[:3], [None] * 3, sw, layout, comm=comm)
+                ph = m['grid'].Grid(eta[:3], [None] * 3, sw, layout, comm=comm, dtype=np.complex128)
                 dist.fill_grid(ph, Pd)
                 out['l2phi'] = m['norms'].l2(eta[:3], sw.getLayout(layout)).l2NormSquared(ph)
                 hd = sw._managers[sw._handlers[layout]]
@@ -409,6 +415,93 @@ def float_replay(allm, item, st):
     finally:
         m['grid'].np = shim
         numenv.enable()
+
+
+# ----------------------------------------------------------------------------- IEEE-754 part: the time-slot expression
+def slot_expression(dc):
+    """the expression assigned to `ti` in DiagnosticCollector.collect, from the current source"""
+    import ast
+    import inspect
+    import textwrap
+    src = textwrap.dedent(inspect.getsource(dc.DiagnosticCollector.collect))
+    tree = ast.parse(src)
+    for node in ast.walk(tree):
+        if isinstance(node, ast.Assign) and isinstance(node.targets[0], ast.Name) and node.targets[0].id == 'ti':
+            return node.value, ast.get_source_segment(src, node.value)
+    raise AssertionError('assignment to ti not found in collect()')
+
+
+def fp_term(node, t, dt):
+    """binary64 semantics of the expression (round = ties-to-even like Python, int = truncation)"""
+    import ast
+    F = z3.Float64()
+    if isinstance(node, ast.Name) and node.id == 't':
+        return t
+    if isinstance(node, ast.Attribute) and node.attr == 'dt':
+        return dt
+    if isinstance(node, ast.BinOp) and isinstance(node.op, ast.Div):
+        return z3.fpDiv(z3.RNE(), fp_term(node.left, t, dt), fp_term(node.right, t, dt))
+    if isinstance(node, ast.Call) and isinstance(node.func, ast.Name) and node.func.id == 'round' and len(node.args) == 1:
+        return z3.fpRoundToIntegral(z3.RNE(), fp_term(node.args[0], t, dt))
+    if isinstance(node, ast.Call) and isinstance(node.func, ast.Name) and node.func.id == 'int' and len(node.args) == 1:
+        return z3.fpRoundToIntegral(z3.RTZ(), fp_term(node.args[0], t, dt))
+    raise NotImplementedError('no binary64 encoding for %s' % ast.dump(node)[:80])
+
+
+def slot_fp_item(item):
+    """for ALL doubles dt in [2^-7, 4]: after k steps of t += dt the slot expression gives k (QF_FP, bit-precise)"""
+    k, tmo = item
+    res = H.worker_result()
+    H.install_fake_mpi()
+    dc = H.repo_import('pygyro.diagnostics.diagnostic_collector')
+    node, text = slot_expression(dc)
+    F = z3.Float64()
+    dt = z3.FP('dt', F)
+    t = z3.FPVal(0.0, F)
+    for _ in range(k):
+        t = z3.fpAdd(z3.RNE(), t, dt)
+    res['obligations'] += 1
+    try:
+        term = fp_term(node, t, dt)
+    except NotImplementedError as e:
+        res['inconclusive'].append('time-slot expression %r: %s' % (text, e))
+        return res
+    s = z3.Solver()
+    s.set('timeout', tmo)
+    s.add(z3.fpGEQ(dt, z3.FPVal(2.0 ** -7, F)), z3.fpLEQ(dt, z3.FPVal(4.0, F)))
+    s.add(z3.Not(z3.fpEQ(term, z3.FPVal(float(k), F))))
+    t0 = time.time()
+    r = str(s.check())
+    res['stats'] = dict(queries=1, solver_s=round(time.time() - t0, 2), **{r: 1})
+    if r == 'unsat':
+        res['discharged'] += 1
+        res['nontrivial'].append('slot_fp|%d' % k)
+        res['samples'].append(dict(part='time slot, binary64', expression=text, steps=k, verdict='holds for every double dt in [2^-7, 4]'))
+    elif r == 'sat':
+        m = s.model()
+        dtv = float(eval(str(m[dt]).replace('*(2**', '*(2.0**'))) if False else None
+        fpv = m[dt]
+        import struct
+        bits = (fpv.sign_as_bv().as_long() if hasattr(fpv.sign_as_bv(), 'as_long') else 0, fpv.exponent_as_long(True), fpv.significand_as_long())
+        dtv = (-1.0 if fpv.sign() else 1.0) * (1.0 + fpv.significand_as_long() / 2.0 ** 52) * 2.0 ** (fpv.exponent_as_long(True) - 1023)
+        # replay with python floats through the real expression
+        tt = 0.0
+        for _ in range(k):
+            tt += dtv
+
+        class S:
+            pass
+        S.dt = dtv
+        import ast
+        got = eval(compile(ast.Expression(node), '<slot>', 'eval'), dict(t=tt, self=S, round=round, int=int))
+        rep = dict(kind='slot_fp', expression=text, dt=repr(dtv), steps=k, t=repr(tt), slot_index=got)
+        if got != k:
+            res['violations'].append(('diag:time_slot_float', 'step %d with dt=%r (t=%r): %s gives %r: the diagnostics of this step overwrite another slot' % (k, dtv, tt, text, got), rep))
+        else:
+            res['inconclusive'].append('binary64 model does not reproduce: %r' % rep)
+    else:
+        res['inconclusive'].append('time-slot binary64 query: %s (k=%d)' % (r, k))
+    return res
 
 
 CANARIES = [
@@ -459,12 +552,14 @@ def main():
         run.canaries.append(dict(name=cn[0], detected=hit))
         if not hit:
             run.inconc('canary not detected: %s' % cn[0])
+    for r in H.pmap(slot_fp_item, [(k, 150000) for k in ((3, 6, 7) if quick else range(1, 13))], run.args.jobs):
+        run.merge(r)
     unit_field(run, m, norms, energy)
     numenv.enable(extra_modules=[(norms, None), (energy, None), (dc, None)])
     run.stubs = sorted(set(numenv.STUBS)) + ['pygyro.model.grid np.amin/amax -> If-based non-forking fold', 'mpi4py.MPI: lib/simmpi (reduce/Reduce contract)']
     numenv.disable()
     run.bounds = dict(extents=list(shape), grids=[list(g) for g in grids], layouts='3 4-D layouts + 4 3-D layouts of the driver swapper')
-    run.outside = ['float evaluation of t // dt in DiagnosticCollector.collect (exact arithmetic here)', 'rounding / reduction order',
+    run.outside = ['time slot in binary64: proved only for t accumulated by t += dt over <= 7 (thorough 12) steps and dt in [2^-7, 4]', 'rounding / reduction order',
                    'min/max inside collect() use ndarray.min() (element comparisons): exercised with a concrete exact field, not a symbolic one',
                    'complex phi (object arrays; conj is the identity on reals)']
     run.assumptions = ['exact reals for doubles; theta grid built from the double 2*pi as production does',
